@@ -135,8 +135,13 @@ pub fn build_image(case: &Case) -> Result<Image, String> {
     // a quarter of the images end with a record of several log fragments in the live WAL (a value
     // larger than a 32 KiB log block, written to a key that already has a small value in the same WAL)
     let ch = hash_json(case);
-    if ch % 4 == 0 {
+    if ch % 8 == 0 {
         ops.push(Op::Put(1000, v(33_000 + (ch >> 8) as u32 % 40_000, false)));
+    }
+    if ch % 8 == 4 {
+        // one record of three or more fragments: a batch of two 40 kB values made of one repeated byte
+        // (bytes of a later fragment spliced in after an earlier one still decode as a value)
+        ops.push(Op::Batch(vec![(1000, Some(v(40_000, true))), (9000, Some(v(40_000 + (ch >> 8) as u32 % 3000, true)))]));
     }
     // another quarter: a fresh WAL under a large memtable whose first 32 KiB block ends in a 1-6 byte
     // trailer, with further records (overwrites of keys stored in tables) in the second block
@@ -530,6 +535,107 @@ fn eval_inner(p: &CorruptPoint) -> Result<EvalInfo, (String, bool)> {
                 }
             }
         }
+    }
+    // Backward scan, then a turn-around at every key (seek, prev, next): a merged scan that changes
+    // direction re-positions its non-current children, which may step into the damaged block.
+    if let Ok(mut it) = db.new_iterator(ReadOptions::default()) {
+        let check_pair = |k: &Vec<u8>, v: &Vec<u8>, what: &str| -> Result<(), (String, bool)> {
+            let a = allowed.get(k).cloned().unwrap_or_else(|| vec![None]);
+            if !a.contains(&Some(v.clone())) {
+                let never = !ever.get(k).map_or(false, |s| s.contains(v));
+                return Err((
+                    format!(
+                        "{what} returned ({}, {}) which {}",
+                        hex(k),
+                        hex(v),
+                        if never { "was never written for that key (invented)" } else { "is an older value of that key (resurrected)" }
+                    ),
+                    never,
+                ));
+            }
+            Ok(())
+        };
+        if it.seek_to_last().is_err() {
+            info.read_errors += 1;
+        } else {
+            let mut next_key: Option<Vec<u8>> = None;
+            let mut seen = BTreeSet::new();
+            while it.is_valid() {
+                let (k, v) = it.current().map(|(k, v)| (k.clone(), v.clone())).unwrap();
+                if let Some(nk) = &next_key {
+                    if *nk <= k {
+                        return Err((format!("backward scan returned {} after {} (reordered entries)", hex(&k), hex(nk)), false));
+                    }
+                }
+                check_pair(&k, &v, "backward scan")?;
+                seen.insert(k.clone());
+                next_key = Some(k);
+                it.prev();
+            }
+            if it.take_error().is_some() {
+                info.read_errors += 1;
+            } else {
+                for (k, a) in &allowed {
+                    if !a.contains(&None) && !seen.contains(k) {
+                        return Err((format!("backward scan ended without an error but {} is missing", hex(k)), false));
+                    }
+                }
+            }
+        }
+        let present: Vec<&Vec<u8>> = allowed.iter().filter(|(_, a)| !a.contains(&None)).map(|(k, _)| k).collect();
+        for target in img.universe.iter().map(|k| &k.0) {
+            if it.seek(target).is_err() || it.take_error().is_some() {
+                info.read_errors += 1;
+                continue;
+            }
+            if !it.is_valid() {
+                continue;
+            }
+            let at = it.current().map(|(k, _)| k.clone()).unwrap();
+            it.prev();
+            if it.take_error().is_some() {
+                info.read_errors += 1;
+                continue;
+            }
+            // standing on the largest key smaller than `at` (or before the first one)
+            let cur = if it.is_valid() { it.current().map(|(k, v)| (k.clone(), v.clone())) } else { None };
+            if let Some(sk) = present.iter().find(|k| ***k < at && cur.as_ref().map_or(true, |(ck, _)| ***k > *ck)) {
+                return Err((
+                    format!(
+                        "seek({}) then prev() stands on {} without any error although {} is stored (skipped)",
+                        hex(target),
+                        cur.as_ref().map(|(k, _)| hex(k)).unwrap_or_else(|| "<before the first entry>".into()),
+                        hex(sk)
+                    ),
+                    false,
+                ));
+            }
+            if let Some((ck, cv)) = &cur {
+                if *ck >= at {
+                    return Err((format!("seek({}) then prev() stands on {} which is not before {}", hex(target), hex(ck), hex(&at)), false));
+                }
+                check_pair(ck, cv, "seek then prev()")?;
+                it.next();
+                if it.take_error().is_some() {
+                    info.read_errors += 1;
+                    continue;
+                }
+                if it.is_valid() {
+                    let (nk, nv) = it.current().map(|(k, v)| (k.clone(), v.clone())).unwrap();
+                    if nk <= *ck {
+                        return Err((format!("prev() then next() went from {} to {}", hex(ck), hex(&nk)), false));
+                    }
+                    check_pair(&nk, &nv, "prev() then next()")?;
+                    if let Some(sk) = present.iter().find(|k| ***k > *ck && ***k < nk) {
+                        return Err((format!("prev() then next() went from {} to {} without any error although {} is stored (skipped)", hex(ck), hex(&nk), hex(sk)), false));
+                    }
+                } else if let Some(sk) = present.iter().find(|k| ***k > *ck) {
+                    return Err((format!("prev() then next() ran off the end after {} without any error although {} is stored", hex(ck), hex(sk)), false));
+                }
+            }
+        }
+    } else {
+        info.read_errors += 1;
     }
     // One iterator re-used for a seek to every key; a seek that fails is retried once on the same
     // iterator (an iterator that reported an error must not serve anything wrong afterwards).
